@@ -233,14 +233,16 @@ def fmt(d):
     return "%s(%s)" % (d[0], ", ".join("%s=%s" % kv for kv in d[1]))
 
 
-def r2(ctx):
-    rule = "C01.R2"
-    ctx.rule(rule, "T2 UPER codec-skeleton symmetry: for every kind, UperWriter::write_K and UperReader::read_K (closures included, "
+def r2(ctx, rule="C01.R2", kinds=None):
+    ctx.rule(rule, ("(C01.R2 restricted to the kinds %s) " % ", ".join(kinds) if kinds else "") +
+             "T2 UPER codec-skeleton symmetry: for every kind, UperWriter::write_K and UperReader::read_K (closures included, "
                    "same-type helpers inlined to depth 1) perform the same set of codec / framing calls with the same "
                    "constraint-argument descriptors, and nest the framing combinators with_buffer / scope_stashed / scope_pushed in "
                    "the same order")
     pairs = uper_pairs(ctx, rule)
-    ctx.floor(rule, len(pairs), "C01.R2.pairs")
+    if kinds:
+        pairs = [p for p in pairs if p[0] in kinds]
+    ctx.floor(rule, len(pairs), rule + ".pairs")
     for name, wb, rb in pairs:
         depth = 1 if ctx.tier == "quick" else 3
         sw = skeleton(ctx, wb, depth)
